@@ -184,6 +184,38 @@ def run(ctx: Context) -> None:
                       f"{lfmt(so.deg)}; a length-n moment is homogeneous of degree n/2 only for 1/2 and 1", "second_order_moments")
     report_issues(ctx, an, "C14", seen)
     ctx.require_floor("typing obligations", n, 25)
+    # tolerance-based zero tests: allclose(X, 0) / isclose(X, 0) has an absolute tolerance, so X must be dimensionless (hbar-degree 0); a
+    # quantity of degree k is "zero" for small enough hbar although the state is not (and not for large hbar)
+    n_zero = 0
+    for mname_, fn_ in sorted(cls.methods.items()):
+        sites_ = [c_ for c_ in ast.walk(fn_.node) if isinstance(c_, ast.Call) and (dotted(c_.func) or "").split(".")[-1] in ("allclose", "isclose")
+                  and len(c_.args) >= 2 and isinstance(c_.args[1], ast.Constant) and c_.args[1].value in (0, 0.0)]
+        if not sites_:
+            continue
+        it_ = Interp(an, fn_, {"self": state})
+        n_iss = len(an.issues)
+        try:
+            for st_ in fn_.node.body:
+                if any(any(y is c_ for y in ast.walk(st_)) for c_ in sites_):
+                    break
+                it_.stmt(st_)
+        except Exception:  # noqa: BLE001 - statements before the test that the interpreter cannot execute leave locals untyped
+            pass
+        del an.issues[n_iss:]
+        for c_ in sites_:
+            t_ = it_.ev(c_.args[0])
+            del an.issues[n_iss:]
+            if t_.kind != "num":
+                continue
+            n_zero += 1
+            key = f"{cls.qualname}.{mname_}|zero test of `{norm(c_.args[0])[:40]}`"
+            ok_ = t_.deg == ZERO
+            ctx.obligation("C14", key, ok_, f"{ctx.relpath(fn_.file)}:{c_.lineno}", degree=lfmt(t_.deg))
+            if not ok_:
+                ctx.violation("C14", key, fn_.file, c_.lineno,
+                              f"`{norm(c_)[:70]}` compares a quantity of hbar-degree {lfmt(t_.deg)} with zero under an absolute tolerance: whether the "
+                              f"state counts as (non-)displaced / zero depends on the value of hbar", norm(c_)[:100])
+    ctx.require_floor("C14 tolerance-based zero tests typed", n_zero, 1)
     clause_c(ctx, idx, cls)
     clause_d(ctx, idx)
     ctx.assume("xxpp_to_xpxp_indices / xpxp_to_xxpp_indices are permutations (degree- and dimension-preserving)")
